@@ -86,13 +86,14 @@ def mk_vec(dialect, kind, n, elem, owner="fresh", symtype=None):
 class SSeq:
     """immutable sequence of symbolic length; elem(i) -> any value"""
 
-    __slots__ = ("n", "elem", "desc", "entries_of", "symtype")
+    __slots__ = ("n", "elem", "desc", "entries_of", "symtype", "permuted_entries_of")
 
     def __init__(self, n, elem, desc=""):
         self.n = T.lift(n, T.INT)
         self.elem = elem
         self.desc = desc
         self.entries_of = None
+        self.permuted_entries_of = None
         self.symtype = None
 
     def __repr__(self):
